@@ -1,0 +1,83 @@
+//! Verification hooks. Compiled only with `--cfg taffy_verif`; without it nothing in this file exists.
+//!
+//! * exact-key mode: the per-node cache matches on the complete `LayoutInput` instead of the lossy
+//!   (known_dimensions, available_space, run_mode) compatibility test
+//! * event trace: one event per cache query / store / hidden layout / stored layout
+use crate::tree::{LayoutInput, NodeId};
+use core::cell::{Cell, RefCell};
+use std::string::String;
+use std::vec::Vec;
+
+/// One step of a layout pass as seen at the tree interface
+#[derive(Debug, Clone, PartialEq)]
+pub enum Event {
+    /// `compute_cached_layout` was entered for `node`; `hit` tells whether the cache answered
+    Query {
+        /// the node queried
+        node: NodeId,
+        /// the complete input
+        input: LayoutInput,
+        /// answered from the cache
+        hit: bool,
+    },
+    /// `compute_cached_layout` returned for `node` (closes the matching `Query`)
+    Return {
+        /// the node
+        node: NodeId,
+    },
+    /// `compute_hidden_layout` ran on `node`
+    Hidden {
+        /// the node
+        node: NodeId,
+    },
+    /// `set_unrounded_layout` was called for `node`
+    SetLayout {
+        /// the node
+        node: NodeId,
+    },
+}
+
+thread_local! {
+    static EXACT_KEY: Cell<bool> = const { Cell::new(false) };
+    static CURRENT_INPUT: Cell<Option<LayoutInput>> = const { Cell::new(None) };
+    static EVENTS: RefCell<Option<Vec<Event>>> = const { RefCell::new(None) };
+}
+
+/// Switch exact-key mode on or off (per thread)
+pub fn set_exact_key(on: bool) {
+    EXACT_KEY.with(|c| c.set(on));
+}
+
+/// Is exact-key mode on?
+pub fn exact_key() -> bool {
+    EXACT_KEY.with(|c| c.get())
+}
+
+/// Record the complete input of the query in progress (set by `compute_cached_layout`)
+pub fn set_current_input(input: Option<LayoutInput>) {
+    CURRENT_INPUT.with(|c| c.set(input));
+}
+
+/// The key of the query in progress, if known
+pub fn current_key() -> Option<String> {
+    CURRENT_INPUT.with(|c| c.get()).map(|i| std::format!("{:?}", i))
+}
+
+/// Start recording events (clears any previous trace)
+pub fn start_trace() {
+    EVENTS.with(|e| *e.borrow_mut() = Some(Vec::new()));
+}
+
+/// Stop recording and return the trace
+pub fn take_trace() -> Vec<Event> {
+    EVENTS.with(|e| e.borrow_mut().take().unwrap_or_default())
+}
+
+/// Append an event if a trace is being recorded
+pub fn emit(ev: Event) {
+    EVENTS.with(|e| {
+        if let Some(v) = e.borrow_mut().as_mut() {
+            v.push(ev);
+        }
+    });
+}
